@@ -131,7 +131,9 @@ func staleSettlePredicate(pre, post *sc.Obs, deficit *big.Int, yp *params.YouPar
 	}
 	for _, v := range victims {
 		p := post.ValByMain[v.MainAddress()]
-		if p == nil || p.RewardsTotal.Cmp(v.RewardsTotal) != 0 {
+		// (the defect is about validators that STAY online and were force-settled in this block: one that was
+		// slashed and expelled in the same block also keeps its RewardsTotal, for a legitimate reason)
+		if p == nil || !p.IsOnline() || p.RewardsLastSettled != num || p.RewardsTotal.Cmp(v.RewardsTotal) != 0 {
 			return false, ""
 		}
 	}
